@@ -223,6 +223,24 @@ impl VerifyQueue {
         self.ready_rx.notify_one();
     }
 
+    /// verification-harness hook: (id, remote, is_large_cycle, is_proposal_tx) by added time
+    #[cfg(feature = "verif-hooks")]
+    pub(crate) fn verif_entries(
+        &self,
+    ) -> Vec<(ProposalShortId, Option<(u64, usize)>, bool, bool)> {
+        self.inner
+            .iter_by_added_time()
+            .map(|e| {
+                (
+                    e.id.clone(),
+                    e.inner.remote.map(|(c, p)| (c, p.value())),
+                    e.is_large_cycle,
+                    e.is_proposal_tx,
+                )
+            })
+            .collect()
+    }
+
     /// Clears the map, removing all elements.
     pub fn clear(&mut self) {
         self.inner.clear();
